@@ -56,6 +56,10 @@ TriFillFails(t, ts) ==
         ELSE   (IF CoverOK(t, ts[1]) THEN {} ELSE {"tri_cover"})
           \cup (IF OutsideOK(t, ts[1]) THEN {} ELSE {"tri_outside"}))
 
+\* F = the set drawn through a fill-only style (runs), T = points() of the same triangle: the filled triangle IS its
+\* point set, whatever stroke alignment the (absent) stroke has
+TriStyledFillFails(F, T, code) == IF SameRunSet(T, F) THEN {} ELSE {code}
+
 \* O = the set drawn with stroke width 1 and no fill (runs); L = <<ab, ba, bc, cb, ca, ac>> edge lines (point sequences)
 OutlineOK(O, L) ==
   LET OS == RunsToSet(O)
